@@ -140,6 +140,10 @@ struct DfsObs {
 }
 
 fn run_dfs(sc: &SymScenario, symmetry: bool, seed_salt: u64) -> Result<(DfsObs, u64, u64, u64), String> {
+    run_checker(sc, symmetry, seed_salt, false)
+}
+
+fn run_checker(sc: &SymScenario, symmetry: bool, seed_salt: u64, simulation: bool) -> Result<(DfsObs, u64, u64, u64), String> {
     let model = SymModel(Arc::new(sc.spec.clone()));
     let mut spec = sc.sched.clone();
     spec.seed ^= seed_salt;
@@ -155,10 +159,14 @@ fn run_dfs(sc: &SymScenario, symmetry: bool, seed_salt: u64) -> Result<(DfsObs, 
         if symmetry {
             b = b.symmetry();
         }
-        let ch = b.spawn_dfs().join();
+        let ch: Box<dyn DynChecker> = if simulation {
+            Box::new(b.target_state_count(150).spawn_simulation(sc.sched.seed, stateright::UniformChooser).join())
+        } else {
+            Box::new(b.spawn_dfs().join())
+        };
         let mut discoveries = BTreeMap::new();
         let mut bad = None;
-        for (name, path) in ch.discoveries() {
+        for (name, path) in ch.disc() {
             // re-execute in the original model
             let v = path.into_vec();
             let inits = model.init_states();
@@ -177,7 +185,7 @@ fn run_dfs(sc: &SymScenario, symmetry: bool, seed_salt: u64) -> Result<(DfsObs, 
             }
             discoveries.insert(name.to_string(), v.into_iter().map(|x| x.0).collect());
         }
-        (discoveries, bad, ch.unique_state_count())
+        (discoveries, bad, ch.uniq())
     }));
     let aborted = sched.aborted();
     let _ = sched.leave(aborted.is_some());
@@ -185,6 +193,19 @@ fn run_dfs(sc: &SymScenario, symmetry: bool, seed_salt: u64) -> Result<(DfsObs, 
     match res {
         Ok((discoveries, bad_path, unique)) => Ok((DfsObs { discoveries, bad_path, unique, visited: seen.with(|l| l.clone()) }, sched.trace_hash(), st.steps, st.final_clock_ns)),
         Err(e) => Err(if e.is::<SimShutdown>() { format!("aborted: {:?}", aborted) } else { "panic".to_string() }),
+    }
+}
+
+trait DynChecker {
+    fn disc(&self) -> std::collections::HashMap<&'static str, Path<PState, (u8, u8)>>;
+    fn uniq(&self) -> usize;
+}
+impl<C: Checker<SymModel>> DynChecker for C {
+    fn disc(&self) -> std::collections::HashMap<&'static str, Path<PState, (u8, u8)>> {
+        self.discoveries()
+    }
+    fn uniq(&self) -> usize {
+        self.unique_state_count()
     }
 }
 
@@ -219,6 +240,21 @@ pub fn execute(sc: &SymScenario) -> (Vec<Violation>, Counters, u64, u64, u64) {
         .collect();
     let plain = run_dfs(sc, false, 0);
     let sym = run_dfs(sc, true, 0x51);
+    // the simulation strategy with symmetry: reported paths must be executions of the original model
+    if let Ok((so, _, _, _)) = run_checker(sc, true, 0x77, true) {
+        c.inc("simulation_with_symmetry_runs");
+        if let Some(b) = &so.bad_path {
+            v.push(Violation::new("C10", "path:Simulation", format!("simulation with symmetry: {}", b)));
+        }
+        for (name, states) in &so.discoveries {
+            let i = QN.iter().position(|n| n == name).unwrap();
+            let (always, pred) = &sc.spec.props[i];
+            let last = states.last().unwrap();
+            if *always == holds(pred, last) {
+                v.push(Violation::new("C10", "path:Simulation", format!("simulation with symmetry: the path for {} ends in {:?}, which is no witness", name, last)));
+            }
+        }
+    }
     let (mut sig, mut steps, mut clock) = (0, 0, 0);
     match (plain, sym) {
         (Ok((p, h1, s1, c1)), Ok((s, h2, s2, c2))) => {
